@@ -903,8 +903,11 @@ class PandasModelBase(
             if len(missing_group_cols) != 0:
                 raise ValueError("Missing column groups")
         else:
-            for g in missing_group_cols:
-                res[g] = []
+            # add the missing group columns in the order of op.group_by
+            # (iterating the set made the column order depend on PYTHONHASHSEED)
+            for g in op.group_by:
+                if g in missing_group_cols:
+                    res[g] = []
         if "_data_table_temp_col" in res.columns:
             res = res.drop("_data_table_temp_col", axis=1, inplace=False)
         # double check shape is what we expect
